@@ -315,7 +315,7 @@ def run_property(prop_id, tier, seed):
             if o["must_fail"]:
                 vacuity.append(dict(obligation=o["name"], status=o["status"]))
                 if o["status"] == "vacuous":
-                    if o["kind"] == "canary":
+                    if o["kind"] == "canary" and r["status"] == "ok":
                         crashed.append(dict(r, error=f"canary not refuted: {o['name']} (pipeline vacuous)"))
                     # an unreachable exit (cover) is reported but is not an error by itself
                 continue
